@@ -801,6 +801,15 @@ pub fn c10_scenarios(tier: Tier) -> Vec<Scenario> {
                 move || run_time(&sc),
             ));
         }
+        if with_runtime {
+            v.push(Scenario::new(
+                "managed/tokio/zero-wait-burst",
+                "300 zero-wait gets in a row inside one poll of a tokio task (its cooperative budget runs out on the way), zero wait per call or at pool level: all succeed on the idle pool, all fail at once with Timeout(Wait) on the exhausted one",
+                0,
+                0,
+                crate::tworld::run_zero_wait_burst,
+            ));
+        }
         let sc = UTimeScenario { with_runtime, max_events: ev };
         v.push(Scenario::new(
             &format!("unmanaged/{}", if with_runtime { "tokio" } else { "no-runtime" }),
